@@ -3,6 +3,7 @@ import Dawn.Proofs.EnvTerm
 import Dawn.Proofs.EnvClosed
 import Dawn.Proofs.EnvRename
 import Dawn.Proofs.EnvCompare
+import Dawn.Proofs.EnvIso
 /-!
 # C08 — every target function can be fingerprinted, deterministically
 
@@ -102,15 +103,58 @@ example : (match encodeOps Cfg.current gDet' 100 (.ref 5), encodeOps Cfg.current
 
 /-! ## sensitivity -/
 
-/-- C08, "changing any code or value the function references produces an unequal one" — PARTIAL.
-Proved here: distinct atoms have distinct encodings, and the encoding of an atom never equals the encoding of
-a heap object (so an edit that replaces a scalar at the root of a comparison is visible). NOT proved: that
-equality of the opcodes of two whole traversals forces the two graphs to be isomorphic (injectivity of the walk
-through containers, memo references and `Recursive` markers); that part is checked on the implementation by the
-judge (every mutation of a referenced constant / global / default / free variable / callee / helper / signature /
-builtin must change the real fingerprint) and, for the codec, by the round-trip theorems of area Pickle. The
-regression theorems below show the three collisions that the judge found in the original host rules. -/
-theorem C08_sensitive_partial : ∀ a b : Atom, encAtom a = encAtom b → a = b := by
+/-- C08, "changing any code or value the function references produces an unequal one": for the repaired code
+(`Cfg.current`, which `Ties/Env.lean` ties to the tree) the opcodes determine the environment. If the walks of two
+graphs write the same opcodes, the graphs are isomorphic below their roots (`EnvIso`): there is a one-to-one relation
+between the addresses of their lists, dicts, sets and host objects under which the roots are similar and related
+objects have the same kind, the same payload (target label, builtin name and receiver, bytecode, signature) and
+similar children; tuples, which the encoder never memoises, are compared element by element. Contrapositive: any
+edit that makes the environment non-isomorphic to what it was — another constant, element, global, default, free
+variable, callee body, helper, signature, builtin, or another sharing / cycle structure — changes the opcodes.
+With `C08_deterministic` (isomorphic ⇒ equal opcodes): the opcodes are equal exactly for isomorphic environments.
+Proof: `serT_injective` (the stack machine of the decoder reads every stream in one way), `encVal_toTerm`,
+`lockstep`. The byte layer (`ser`: opcodes to bytes) is theorem C07_bytes of area Pickle. -/
+theorem C08_sensitive (g₁ g₂ : Heap) (r₁ r₂ : Val) (f₁ f₂ : Nat) (ops : List Op)
+    (h₁ : encodeOps Cfg.current g₁ f₁ r₁ = .ok ops) (h₂ : encodeOps Cfg.current g₂ f₂ r₂ = .ok ops) :
+    EnvIso g₁ r₁ g₂ r₂ :=
+  iso_of_equal_ops g₁ g₂ r₁ r₂ f₁ f₂ ops h₁ h₂
+
+/-- the contrapositive, as the property words it -/
+theorem C08_sensitive_contrapositive (g₁ g₂ : Heap) (r₁ r₂ : Val) (f₁ f₂ : Nat) (ops₁ ops₂ : List Op)
+    (h₁ : encodeOps Cfg.current g₁ f₁ r₁ = .ok ops₁) (h₂ : encodeOps Cfg.current g₂ f₂ r₂ = .ok ops₂)
+    (hd : ¬ EnvIso g₁ r₁ g₂ r₂) : ops₁ ≠ ops₂ :=
+  fun e => hd (C08_sensitive g₁ g₂ r₁ r₂ f₁ f₂ ops₁ h₁ (e ▸ h₂))
+
+/-- the hypotheses are satisfiable with different heaps: the permuted copy of `gDet` above has the same opcodes, so
+it is isomorphic to `gDet` — here the isomorphism is `a ↦ 5 - a` -/
+example : EnvIso gDet' (.ref 5) gDet (.ref 0) := by
+  have h : ∃ ops, encodeOps Cfg.current gDet' 100 (.ref 5) = .ok ops ∧ encodeOps Cfg.current gDet 100 (.ref 0) = .ok ops := by
+    have hd := C08_deterministic Cfg.current ρDet (by
+      intro a b h; simp only [ρDet] at h; split at h <;> split at h <;> omega) gDet gDet' (by
+      intro a
+      by_cases ha : a < 8
+      · have : (List.range 8).all (fun a => gDet'[ρDet a]? == (gDet[a]?).map (Obj.rename ρDet)) = true := by decide +kernel
+        have := (List.all_eq_true.mp this) a (List.mem_range.mpr ha)
+        simpa using this
+      · have h1 : gDet[a]? = none := by
+          apply List.getElem?_eq_none; simp [gDet]; omega
+        have h2 : gDet'[ρDet a]? = none := by
+          have hr : ρDet a = a := by simp only [ρDet]; split <;> omega
+          apply List.getElem?_eq_none; rw [hr]; simp [gDet', gDet]; omega
+        rw [h1, h2]; rfl) 100 (.ref 0)
+    have hv : (Val.ref 0).rename ρDet = .ref 5 := by simp [Val.rename, ρDet]
+    rw [hv] at hd
+    cases h0 : encodeOps Cfg.current gDet 100 (.ref 0) with
+    | error e =>
+      have : (match encodeOps Cfg.current gDet 100 (.ref 0) with | .ok _ => true | .error _ => false) = true := by
+        decide +kernel
+      rw [h0] at this; cases this
+    | ok ops => exact ⟨ops, by rw [hd, h0], rfl⟩
+  obtain ⟨ops, h1, h2⟩ := h
+  exact C08_sensitive _ _ _ _ _ _ ops h1 h2
+
+/-- distinct atoms are written differently (the base case of the above) -/
+theorem C08_sensitive_atoms : ∀ a b : Atom, encAtom a = encAtom b → a = b := by
   intro a b h
   cases a with
   | bool x => cases b with
